@@ -24,6 +24,8 @@ type vJoinEnv struct {
 	frozen   []int // values of the unreleased slice at the moment of the stop
 	frozenSlice []int // that slice itself
 	ptr      int   // position in items up to which the delivered elements have been matched
+	acc       []int64 // acceptance time of every element inside the discipline, oldest first
+	mustFlush bool    // a tick was taken at least Timeout after acc[0]: a delivery must come next
 }
 
 func vJoinSetup(timed bool, closeInput bool, sink bool) *vJoinEnv {
@@ -76,8 +78,29 @@ func vJoinSetup(timed bool, closeInput bool, sink bool) *vJoinEnv {
 			vSink(d.output)
 		}
 	}
+	if timed {
+		vOnRecv(in, func(v any, ok bool) {
+			vAssert(!e.mustFlush, "C10: a tick taken at least Timeout after the oldest buffered element was accepted flushes the buffer (an arrival never postpones the deadline of what is already buffered)")
+			if ok {
+				vAdvance()
+				e.acc = append(e.acc, vNow())
+			}
+		})
+		vOnTick(func() {
+			vAssert(!e.mustFlush, "C10: a tick taken at least Timeout after the oldest buffered element was accepted flushes the buffer (an arrival never postpones the deadline of what is already buffered)")
+			if len(e.acc) > 0 && vNow()-e.acc[0] >= int64(opts.Timeout) {
+				e.mustFlush = true
+			}
+		})
+	}
 	vOnSend(d.output, func(v any) {
 		s := v.([]int)
+		e.mustFlush = false
+		if len(s) <= len(e.acc) {
+			e.acc = e.acc[len(s):]
+		} else {
+			e.acc = nil
+		}
 		vAssert(len(s) > 0, "C03: no output slice is empty")
 		vAssert(len(s) <= JS, "C03: a join slice never has more than JoinSize elements")
 		// checked at every delivery (before the ownership rules, whose failure would end the path)
